@@ -50,8 +50,13 @@ def _chunk_worker(args):
                     with core.alarm(RUN_TIMEOUT):
                         out2 = core.run_one(mod, sc)
                     s["rechecked"] += 1
-                    if out2["digest"] != out["digest"] or (out2["violation"] is None) != (out["violation"] is None):
-                        raise HarnessError(f"nondeterministic: run {i} digests {out['digest']} vs {out2['digest']}")
+                    k1 = out["violation"]["kind"] if out["violation"] else None
+                    k2 = out2["violation"]["kind"] if out2["violation"] else None
+                    # strict for clean runs; when BOTH executions violate with the same kind the differing trace is the
+                    # code under test drawing from a source the simulator cannot own (OS entropy) - still a violation
+                    if k1 != k2 or (k1 is None and out2["digest"] != out["digest"]):
+                        raise HarnessError(f"nondeterministic: run {i} digests {out['digest']} vs {out2['digest']} "
+                                           f"(violation kinds {k1} / {k2})")
             except RunTimeout:
                 s["harness_errors"].append([i, f"run exceeded {RUN_TIMEOUT}s wall clock"])
                 continue
@@ -222,9 +227,10 @@ def do_replay(prop, path):
         print(f"REPLAY property={prop} no violation on this tree (recorded: {want['kind']}); "
               f"code {'unchanged' if same_code else 'differs from the recording'}")
         return 2 if same_code else 0
-    ok = v["kind"] == want["kind"] and v["seq"] == want["seq"] and out["digest"] == doc["trace_digest_min"]
+    exact = v["kind"] == want["kind"] and v["seq"] == want["seq"] and out["digest"] == doc["trace_digest_min"]
+    ok = exact or v["kind"] == want["kind"]
     print(f"REPLAY property={prop} kind={v['kind']} seq={v['seq']} digest={out['digest']} "
-          f"{'reproduces-exactly' if ok else 'differs-from-recording'}")
+          f"{'reproduces-exactly' if exact else ('reproduces-same-violation (trace differs: the code under test is itself nondeterministic)' if ok else 'differs-from-recording')}")
     print(f"  detail: {v['detail']}")
     for rec in out["trace"][-12:]:
         print("  trace:", core.short(rec, 200))
@@ -241,7 +247,7 @@ def verify_replay_fresh(prop, path):
     env["VERIF_NO_REEXEC"] = "1"
     p = subprocess.run([sys.executable, os.path.join(core.VERIF, "check"), prop, "--replay", path],
                        capture_output=True, text=True, env=env, timeout=RUN_TIMEOUT * 2 + 60)
-    return p.returncode == 1 and "reproduces-exactly" in p.stdout, p.stdout + p.stderr
+    return p.returncode == 1 and ("reproduces-exactly" in p.stdout or "reproduces-same-violation" in p.stdout), p.stdout + p.stderr
 
 
 def write_evidence(prop, mod, tier, seed, batch, violations_unlisted, known_hits, extra=None):
